@@ -16,12 +16,12 @@ set_option linter.unusedSectionVars false
 set_option linter.unusedSimpArgs false
 
 variable {K V : Type} [Field K] [LinearOrder K] [IsStrictOrderedRing K] [AddCommGroup V] [Module K V]
-variable (c : Cfg K) (f : V → K × V) (hessp : V → V → V) (ip : V → V → K) (gradnorm : V → K)
+variable (c : Cfg K) (f : V → K × V) (nan : V → Bool) (hessp : V → V → V) (ip : V → V → K) (gradnorm : V → K)
   (cgnorm : V → K) (cg : CgArgs K → V → V → V × Int)
 
 /-- what the eager line search returns -/
 theorem lsEager_spec (pos : V) (energy : K) (g : V) : ∀ (fuel ls : Nat) (gs : K) (dd : V) (reset : Bool),
-    let R := lsEager f hessp ip pos energy g fuel ls gs dd reset
+    let R := lsEager f nan hessp ip pos energy g fuel ls gs dd reset
     (R.found = true → R.newEnergy = (f R.newPos).1 ∧ R.newG = (f R.newPos).2 ∧ R.newEnergy ≤ energy
         ∧ R.newPos = pos - R.gs • R.dd)
     ∧ (R.found = false → R.newPos = pos ∧ R.newEnergy = energy ∧ R.newG = g) := by
@@ -44,23 +44,23 @@ theorem ite3_cases {α : Type} (A B : Prop) [Decidable A] [Decidable B] (x y z :
 def Inv (E0 : K) (s : NSt K V) : Prop := s.energy = (f s.pos).1 ∧ s.g = (f s.pos).2 ∧ s.energy ≤ E0
 
 theorem ncgEagerStep_inv (E0 : K) (i : Nat) (s : NSt K V) (h : Inv f E0 s) :
-    match ncgEagerStep c f hessp ip gradnorm cgnorm cg i s with
+    match ncgEagerStep c f nan hessp ip gradnorm cgnorm cg i s with
     | .next s' => Inv f E0 s' ∧ s'.energy ≤ s.energy ∧ s'.oldF = some s.energy
     | .stop (.ok r) => r.fn = (f r.x).1 ∧ r.jac = (f r.x).2 ∧ r.fn ≤ E0 ∧ r.fn ≤ s.energy ∧ r.nit = i
         ∧ (r.status = 0 ∨ (r.status = -1 ∧ r.x = s.pos))
     | .stop (.error _) => True := by
   obtain ⟨h1, h2, h3⟩ := h
-  have hls := lsEager_spec f hessp ip s.pos s.energy s.g 9 0 1 (cg (eagerCgArgs c cgnorm s) s.pos s.g).1 false
+  have hls := lsEager_spec f nan hessp ip s.pos s.energy s.g 9 0 1 (cg (eagerCgArgs c cgnorm s) s.pos s.g).1 false
   unfold ncgEagerStep
   simp only [lineSearchEager] at hls ⊢
   by_cases hc : (cg (eagerCgArgs c cgnorm s) s.pos s.g).2 < 0
   · simp only [hc, if_true]
   · simp only [hc, if_false]
-    by_cases hf : (lsEager f hessp ip s.pos s.energy s.g 9 0 1 (cg (eagerCgArgs c cgnorm s) s.pos s.g).1 false).found = false
+    by_cases hf : (lsEager f nan hessp ip s.pos s.energy s.g 9 0 1 (cg (eagerCgArgs c cgnorm s) s.pos s.g).1 false).found = false
     · simp only [hf, if_true]
       refine ⟨h1, h2, h3, le_refl _, ?_⟩
       simp
-    · have hf' : (lsEager f hessp ip s.pos s.energy s.g 9 0 1 (cg (eagerCgArgs c cgnorm s) s.pos s.g).1 false).found = true := by
+    · have hf' : (lsEager f nan hessp ip s.pos s.energy s.g 9 0 1 (cg (eagerCgArgs c cgnorm s) s.pos s.g).1 false).found = true := by
         simpa using hf
       obtain ⟨a, b, c', _⟩ := hls.1 hf'
       simp only [hf', Bool.true_eq_false, if_false]
@@ -74,7 +74,7 @@ theorem ncgEagerStep_inv (E0 : K) (i : Nat) (s : NSt K V) (h : Inv f E0 s) :
       · exact ⟨⟨a, b, le_trans c' h3⟩, c', rfl⟩
 
 theorem ncgEagerLoop_inv (E0 : K) : ∀ (fuel i : Nat) (s : NSt K V), Inv f E0 s → ∀ r,
-    ncgEagerLoop c f hessp ip gradnorm cgnorm cg fuel i s = .ok r →
+    ncgEagerLoop c f nan hessp ip gradnorm cgnorm cg fuel i s = .ok r →
     r.fn = (f r.x).1 ∧ r.jac = (f r.x).2 ∧ r.fn ≤ E0 := by
   intro fuel
   induction fuel with
@@ -85,9 +85,9 @@ theorem ncgEagerLoop_inv (E0 : K) : ∀ (fuel i : Nat) (s : NSt K V), Inv f E0 s
     exact h
   | succ fuel ih =>
     intro i s h r hr
-    have hstep := ncgEagerStep_inv c f hessp ip gradnorm cgnorm cg E0 i s h
+    have hstep := ncgEagerStep_inv c f nan hessp ip gradnorm cgnorm cg E0 i s h
     rw [ncgEagerLoop] at hr
-    cases hE : ncgEagerStep c f hessp ip gradnorm cgnorm cg i s with
+    cases hE : ncgEagerStep c f nan hessp ip gradnorm cgnorm cg i s with
     | stop r' =>
       rw [hE] at hstep hr
       simp only at hr
